@@ -2,12 +2,11 @@
 """Regenerates MANIFEST.json from the table below (kept next to the rules so the claim matches what is built)."""
 import json, subprocess, sys
 
-CLAIMED = {
- # id: (category, technique, text, note)
- "C03": ("other", "static analysis: call-graph who-may-call, finite-domain decision table of the signer extracted from SSA, dominance / edge-dominance of persist-before-release",
-         "Decides structural necessary conditions of no-equivocation from the source on every run: who may sign, the exhaustive 216-state ordering table of signBytesHRS against its specification, persist-before-release (stores, save(), error test) on every path that releases a signature, atomic-write shape, tolerated signing errors. It does not decide behaviour over histories or crash points.",
-         "Trusted: go/types, go/ssa, VTA call graph, annverif engines, slot tables in tool/rules/c03.go. Assumes process-crash model (rename after write is atomic); fsync/power loss not covered."),
-}
+METAS = json.loads(subprocess.check_output(['/verif/bin/annverif','metas']))
+CLAIMED = {}
+for k,m in METAS.items():
+    note = "Trusted base: go/types, go/ssa and the VTA call graph of golang.org/x/tools v0.29.0, the annverif engines, and the slot tables in tool/rules/%s.go (each entry confirmed by reading). Assumptions: %s" % (k.lower(), "; ".join(m.get("Assume") or ["none beyond the trusted base"]))
+    CLAIMED[k] = (m["Level"], m["Technique"], m["Explain"], note)
 
 PENDING_REASON = "rule set designed (DESIGN.md section 4) but not yet built in this tree; not claimed until it is armed, silent or triaged on the pinned tree, and mutation-tested"
 
